@@ -1498,10 +1498,10 @@ var pjFaultyMembers = map[string]pjMember{
 	// sender = alice's key, signed with mallory's key, carrying MALLORY's own valid mapping
 	"foreign-mapping": {"p-alice", "p-mallory", "@mallory:hs3", "ok", "p-mallory", "join"},
 	// the same, properly signed with alice's key (alice vouching for nothing: the mapping is still not about her key)
-	"foreign-mapping-selfsigned": {"p-alice", "p-mallory", "@mallory:hs3", "ok", "p-alice", "join"},
-	"unsigned-mapping":           {"p-alice", "p-alice", "@alice:hs2", "none", "p-alice", "join"},
-	"mapping-of-other-server":    {"p-alice", "p-alice", "@alice:hs2", "other", "p-alice", "join"},
-	"mapping-bad-signature":      {"p-alice", "p-alice", "@alice:hs2", "bad", "p-alice", "join"},
+	"foreign-mapping-selfsigned":  {"p-alice", "p-mallory", "@mallory:hs3", "ok", "p-alice", "join"},
+	"unsigned-mapping":            {"p-alice", "p-alice", "@alice:hs2", "none", "p-alice", "join"},
+	"mapping-of-other-server":     {"p-alice", "p-alice", "@alice:hs2", "other", "p-alice", "join"},
+	"mapping-bad-signature":       {"p-alice", "p-alice", "@alice:hs2", "bad", "p-alice", "join"},
 	"mapping-extra-bad-signature": {"p-alice", "p-alice", "@alice:hs2", "extrabad", "p-alice", "join"},
 	// a valid mapping for the sender in an event that is NOT validly signed by the sender's key: what is stored is still true
 	"event-signed-by-other-key": {"p-alice", "p-alice", "@alice:hs2", "ok", "p-mallory", "join"},
